@@ -50,9 +50,28 @@ theorem nonfin_nil_kids {st : St α} {p : Oid} (hn : nonfin P st p = []) : ∀ e
   have := List.filter_eq_nil_iff.mp hn e he
   simpa using this
 
-theorem cascade_inv (h : Laws P) (wf : WFk P) {D : List Oid} :
+variable (P) in
+/-- number of notifications the cascade processes (one loop iteration each) -/
+def steps : Nat → St α → List (Oid × Nat × α) → Nat
+  | 0, _, _ => 0
+  | _, _, [] => 0
+  | fuel+1, st, (p, nm, sz) :: rest =>
+    match st.recs p with
+    | none => 1 + steps fuel st rest
+    | some r =>
+      let r' : Rec α := { r with size := P.op r.size (P.desc nm sz), pending := r.pending - 1 }
+      if r'.pending = 0 then
+        1 + steps fuel (finalize st p r'.size) (r'.listeners.map (fun l => (l.1, l.2, r'.size)) ++ rest)
+      else
+        1 + steps fuel { st with recs := upd st.recs p (some r') } rest
+
+/-- the cascade preserves the invariant, and every iteration lowers the potential by exactly one:
+    iterations + (potential afterwards) = potential before -/
+theorem cascade_inv_steps (h : Laws P) (wf : WFk P) {D : List Oid} :
     ∀ (fuel : Nat) (st : St α) (W : List (Oid × Nat × α)),
-      InvX P none st D W → phi P st D W ≤ fuel → InvX P none (cascade P fuel st W) D [] := by
+      InvX P none st D W → phi P st D W ≤ fuel →
+      InvX P none (cascade P fuel st W) D [] ∧
+      steps P fuel st W + phi P (cascade P fuel st W) D [] = phi P st D W := by
   intro fuel
   induction fuel with
   | zero =>
@@ -63,18 +82,18 @@ theorem cascade_inv (h : Laws P) (wf : WFk P) {D : List Oid} :
       | nil => rfl
       | cons a l => simp at hphi
     subst this
-    simpa [cascade] using inv
+    exact ⟨by simpa [cascade] using inv, by simp [steps, cascade]⟩
   | succ fuel ih =>
     intro st W inv hphi
     cases W with
-    | nil => simpa [cascade] using inv
+    | nil => exact ⟨by simpa [cascade] using inv, by simp [steps, cascade]⟩
     | cons w rest =>
       obtain ⟨p, nm, s⟩ := w
       obtain ⟨hpD, hpn⟩ := inv.Wv (p, nm, s) (List.mem_cons_self ..)
       obtain ⟨r, hr, hpend, hpos, hS⟩ := inv.R p hpD (by simp) hpn
       rw [Wp_cons_self] at hpend hS
       simp only [List.length_cons, List.map_cons] at hpend hS
-      unfold cascade
+      unfold cascade steps
       simp only [hr]
       by_cases hz : r.pending - 1 = 0
       · -- the record becomes complete: finalise and push its listeners
@@ -94,16 +113,24 @@ theorem cascade_inv (h : Laws P) (wf : WFk P) {D : List Oid} :
           have : w ∈ Wp rest p := by simp [Wp, hw, hwp']
           rw [hwp] at this; cases this
         have inv' := fin_push h wf (inv_drop_head inv) hpD hpn (nonfin_nil_kids hnf) hrest
-        apply ih _ _ inv'
-        -- potential
-        unfold phi at hphi ⊢
-        rw [sum_nonfin_split st p (expand P p) hpn D, ← inv.L p hpn] at hphi
-        simp only [List.length_cons, List.length_append, List.length_map] at hphi ⊢
-        omega
+        have hpot : phi P (finalize st p (expand P p)) D ((lis st p).map (fun l => (l.1, l.2, expand P p)) ++ rest) + 1 =
+            phi P st D ((p, nm, s) :: rest) := by
+          unfold phi
+          rw [sum_nonfin_split st p (expand P p) hpn D, ← inv.L p hpn]
+          simp only [List.length_cons, List.length_append, List.length_map]
+          omega
+        obtain ⟨i1, i2⟩ := ih _ _ inv' (by omega)
+        exact ⟨i1, by omega⟩
       · -- still waiting for other children
         simp only [hz, if_false]
-        apply ih
-        · -- invariant for the updated record
+        have hpot : phi P { st with recs := upd st.recs p (some { r with size := P.op r.size (P.desc nm s), pending := r.pending - 1 }) } D rest + 1 =
+            phi P st D ((p, nm, s) :: rest) := by
+          unfold phi
+          simp only [List.length_cons]
+          have e3 : ∀ q, nonfin P { st with recs := upd st.recs p (some { r with size := P.op r.size (P.desc nm s), pending := r.pending - 1 }) } q = nonfin P st q := fun _ => rfl
+          simp only [e3]
+          omega
+        have inv'' : InvX P none { st with recs := upd st.recs p (some { r with size := P.op r.size (P.desc nm s), pending := r.pending - 1 }) } D rest := by
           refine ⟨inv.nodup, ?_, ?_, ?_, ?_, ?_, inv.Fn, inv.Fm⟩
           · intro t s' hs
             have htp : t ≠ p := fun e => by rw [e, hpn] at hs; cases hs
@@ -143,10 +170,12 @@ theorem cascade_inv (h : Laws P) (wf : WFk P) {D : List Oid} :
               rw [Wp_cons_ne p nm s rest t htp] at h2 h4
               exact ⟨r1, by simp [upd, htp, h1], h2, h3, h4⟩
           · intro w hw; exact inv.Wv w (List.mem_cons_of_mem _ hw)
-        · unfold phi at hphi ⊢
-          simp only [List.length_cons] at hphi
-          have e3 : ∀ q, nonfin P { st with recs := upd st.recs p (some { r with size := P.op r.size (P.desc nm s), pending := r.pending - 1 }) } q = nonfin P st q := fun _ => rfl
-          simp only [e3]
-          omega
+        obtain ⟨i1, i2⟩ := ih _ _ inv'' (by omega)
+        exact ⟨i1, by omega⟩
+
+theorem cascade_inv (h : Laws P) (wf : WFk P) {D : List Oid} :
+    ∀ (fuel : Nat) (st : St α) (W : List (Oid × Nat × α)),
+      InvX P none st D W → phi P st D W ≤ fuel → InvX P none (cascade P fuel st W) D [] :=
+  fun fuel st W inv hphi => (cascade_inv_steps h wf fuel st W inv hphi).1
 
 end Agg
